@@ -198,9 +198,10 @@ def _rest(col, crate, adt, gi, DIMS, DATA, sfx):
 
     y3_helpers = util.private_helpers(crate, "Tensor", exclude=[gi]) + [f_ for f_ in crate.bodies if not f_.is_closure and f_.kind == "Fn" and f_.container is None and f_.vis != "pub" and not util.self_recursive(f_)]
     y3_helper_keys = {h.key for h in y3_helpers}
+    clone_ok = util.structural_clone_bodies(crate, adt)   # a hand-written Clone verified to copy dims and data field by field
     for b in crate.bodies:
         imp = crate.impl_of(b)
-        if imp is not None and imp.get("derived"):
+        if (imp is not None and imp.get("derived")) or b.key in clone_ok:
             continue
         if b.key in y3_helper_keys:
             continue  # a private constructor helper is judged in the context of each of its callers
